@@ -85,6 +85,7 @@ class Run:
         self.transparent = ()                   # record templates whose objects stand for the single value they are built from
         self.transparent_vars = set()
         self.sinks = {}                         # member name -> buffer name: String members that only receive appended text
+        self.listsinks = {}                     # var id -> list of strings: an Array<String> that only receives appended strings
         self.ignore_string_members = False      # True: assignments / appends to String members of the current object are not tracked
         self.strmem_vals = {}                   # member name -> chars: last value assigned to an (otherwise ignored) String member
         self.elem_size = {}                     # buffer name -> size in bytes of one element (byte-based sizes / offsets are scaled)
@@ -906,6 +907,33 @@ class Run:
                     if name == 'length':
                         return len(sv[1])
                     raise Unsupported('member call `%s` on a substring' % pe(e))
+        if e.get('obj') is not None and self.listsinks:
+            lo = strip_lv(e['obj'])
+            while lo.get('k') in ('temp', 'paren', 'cast'):
+                lo = strip_lv(lo['e'])
+            if lo.get('k') == 'call' and (lo.get('op') == '<<' or (lo.get('fn') or '').split('::')[-1] in ('operator<<', 'append')):
+                inner = self.val(lo)            # out << a << b: the inner append runs first
+                if isinstance(inner, tuple) and inner[0] == 'LSINK':
+                    lo = {'k': 'var', 'id': inner[1]}
+            if lo.get('k') == 'var' and lo.get('id') in self.listsinks:
+                lst = self.listsinks[lo['id']]
+                if name == 'clear' and not e.get('a'):
+                    del lst[:]
+                    return ('LSINK', lo['id'])
+                if name in ('length', 'size') and not e.get('a'):
+                    return len(lst)
+                if (e.get('op') == '<<' or name in ('operator<<', 'append')) and len(e.get('a', [])) == 1:
+                    v_ = self.val(e['a'][0])
+                    if isinstance(v_, tuple) and v_[0] == 'P':
+                        lst.append(tuple(self.cstring(v_, e.get('l'))))
+                    elif isinstance(v_, tuple) and v_[0] == 'STRV':
+                        lst.append(tuple(v_[1]))
+                    elif isinstance(v_, tuple) and v_[0] == 'OBJ' and v_[1] in self.strobjs:
+                        lst.append(tuple(self.bufs[('O', v_[1])][:-1]))
+                    else:
+                        raise Unsupported('`%s` appends something that is not a string' % pe(e))
+                    return ('LSINK', lo['id'])
+                raise Unsupported('member call `%s` on an output list' % pe(e))
         if e.get('obj') is not None and self.sinks:
             so = strip_lv(e['obj'])
             while so.get('k') in ('temp', 'paren', 'cast'):
